@@ -26,6 +26,39 @@ struct Elem {
     struct cstl_hash_node hn2;      // "mixed offsets" cases (header byte 0, bit 7): table T1 links this member
 };
 
+// "any hash function" includes one that consults another table (say, an interning table) while it hashes: see hook()
+bool g_hreenter;
+size_t g_base_live;
+struct cstl_hash g_auxh;
+Elem g_aux_el[3];
+void aux_h_setup()
+{
+    uint64_t ord0 = g_alloc_ordinal, ff0 = g_fail_from;
+    std::vector<uint64_t> fo0;
+    fo0.swap(g_fail_ordinals);
+    g_fail_from = UINT64_MAX;
+    memset(&g_auxh, 0xA5, sizeof g_auxh);
+    LIB(cstl_hash_init(&g_auxh, offsetof(Elem, hn)));
+    LIB(cstl_hash_resize(&g_auxh, 5, cstl_hash_mul));
+    for (int i = 0; i < 3; i++) {
+        memset(&g_aux_el[i], 0x5a, sizeof g_aux_el[i]);
+        g_aux_el[i].key = 1000001 + 2 * i;
+        LIB(cstl_hash_insert(&g_auxh, g_aux_el[i].key, &g_aux_el[i]));
+    }
+    g_alloc_ordinal = ord0; g_fail_from = ff0; fo0.swap(g_fail_ordinals);
+    g_base_live = lib_live_count();
+}
+void aux_h_lookups(size_t x)
+{
+    HarnessScope hs;
+    CNT("class.hash.reentrant_fn");
+    void *r;
+    LIB(r = cstl_hash_find(&g_auxh, 1000001 + 2 * (x % 3), nullptr, nullptr));
+    CHECK_NOTHROW(r == &g_aux_el[x % 3], "C03.find.iff", "a lookup made from inside the hash function of another table did not find a present key");
+    LIB(r = cstl_hash_find(&g_auxh, 2000000 + (x & 0xffff), nullptr, nullptr));
+    CHECK_NOTHROW(r == nullptr, "C03.find.iff", "a lookup made from inside the hash function of another table found an absent key");
+}
+
 enum Op { RESIZE, REHASH, SHRINK, INS, FIND, FIND_V, ERASE, ERASE_ABSENT, SWAP, FOREACH, FOREACH_ERASE, FOREACH_CONST,
           CLEAR, AUDIT_ALL, NOPS };
 const char *OPN[] = {"resize", "rehash", "shrink_to_fit", "insert", "find", "find(visitor)", "erase", "erase_absent", "swap",
@@ -84,10 +117,15 @@ size_t fn_eval(int id, size_t k, size_t m)
     case F_MUL: case F_RAWMUL: return cstl_hash_mul(k, m);
     }
 }
+// "any hash function" includes one that consults another table (say, an interning table) while it hashes. In re-entrant
+// cases (header byte 2, bits 7 and 6; not under C17/C19, whose oracles count calls) every call of a logged hash function
+// performs a hitting and a missing lookup in a small table of its own, which uses a raw built-in and is set up outside
+// the case's fault plan.
 size_t hook(int id, size_t k, size_t m)
 {
     g_calls++;
     g_log.push_back({id, k, m});
+    if (g_hreenter) aux_h_lookups(k);
     if (g_calls == g_bad_at) {
         g_bad_delivered = true;
         // any value of m or more is out of range: the smallest ones, the largest one, and values whose low 32 bits
@@ -796,8 +834,12 @@ void vf_run(const uint8_t *data, size_t len)
     uint8_t kb = cur.u8();
     size_t K = KEYS[kb % 8];
     g_key_xf = (kb / 8) % 8;
-    size_t maxlive = MAXLIVE[cur.u8() % 8];
+    uint8_t mlb = cur.u8();
+    size_t maxlive = MAXLIVE[mlb % 8];
     int prof = cur.u8() % NPROFILES;
+    g_hreenter = false;
+    g_base_live = 0;
+    bool want_reenter = (mlb & 0xC0) == 0xC0 && !cx.c17 && !cx.c19 && len < 4000;
     g_big = prof == PROFILE_BIG || prof == PROFILE_BIG_C04;
     if (g_big) { K = 200000; maxlive = 1000000; }
     uint16_t badat = cur.u16();
@@ -806,6 +848,7 @@ void vf_run(const uint8_t *data, size_t len)
     g_bad_at = cx.c17 ? 1 + badat % 400 : 0;
     g_bad_delivered = false;
     if (cx.c19 || cx.c17) ntab = 1;
+    if (want_reenter && !g_big) { aux_h_setup(); g_hreenter = true; }
     T[0].init("T0");
     T[1].init("T1", mixed ? offsetof(Elem, hn2) : offsetof(Elem, hn));
     std::vector<uint8_t> tab;
@@ -889,7 +932,13 @@ void vf_run(const uint8_t *data, size_t len)
         fresh_clear(t.where);
         t.n = 0;
     }
-    CHECK(lib_live_count() == 0, PF("C04.clear.released", "C16.hash.leak"), "clear left %zu library allocations (bucket arrays)", lib_live_count());
+    CHECK(lib_live_count() == g_base_live, PF("C04.clear.released", "C16.hash.leak"), "clear left %zu library allocations (bucket arrays)", lib_live_count() - g_base_live);
+    if (g_hreenter) {
+        g_hreenter = false;
+        LIB(cstl_hash_clear(&g_auxh, nullptr));
+        CHECK(lib_live_count() == 0, "C04.clear.released", "clear of the auxiliary table left %zu library allocations", lib_live_count());
+        g_base_live = 0;
+    }
     if (cx.c04) g_nontrivial = cx.enum_grow_relocated && cx.enum_shrink;
     else if (cx.c19) g_nontrivial = cx.resize_while_pending && cx.four_buckets && cx.grow && cx.shrink;
     else if (cx.c16) g_nontrivial = g_faults_hit >= 1 && cx.ops_after_fault >= 3;
